@@ -14,6 +14,7 @@ import (
 	"github.com/avfs/avfs"
 	"github.com/avfs/avfs/idm/memidm"
 	"github.com/avfs/avfs/vfs/basepathfs"
+	"github.com/avfs/avfs/vfs/failfs"
 	"github.com/avfs/avfs/vfs/memfs"
 	"github.com/avfs/avfs/vfs/orefafs"
 	"github.com/avfs/avfs/vfs/rofs"
@@ -93,7 +94,8 @@ type sys struct {
 	// stand on a read-only view (rofs) of their file system -, "user" - the calls
 	// are made by a non-administrator user in the world of populateUser,
 	// "name:<class>" - B has the name of nameWorlds and holds the nested copy of
-	// its own path.
+	// its own path, "kept-errors" - wrapper and reference stand on a FailFS that
+	// refuses some names with error values it keeps (kept.go).
 	variant  string
 	named    bool
 	spelling string
@@ -101,6 +103,11 @@ type sys struct {
 	outLinks bool
 	roBase   bool
 	user     bool
+	kept     bool
+
+	// keptBase, keptRef: the error values kept by the file system below the
+	// wrapper / by the reference (variant kept-errors).
+	keptBase, keptRef *keptErrs
 
 	base hooked
 	ref  hooked
@@ -125,7 +132,7 @@ type sys struct {
 
 // newSys builds the system of a name: "<fs>", "<fs>@<class of
 // basePathSpellings>", "<fs>+out-links", "<fs>+ro", "<fs>+user",
-// "<fs>+name:<class of nameWorlds>".
+// "<fs>+name:<class of nameWorlds>", "<fs>+kept-errors".
 func newSys(name string, ops []opT, nAt []int) *sys {
 	s := &sys{fsName: name, ops: ops, nAt: nAt, spelling: basePath}
 
@@ -155,6 +162,8 @@ func newSys(name string, ops []opT, nAt []int) *sys {
 			s.roBase = true
 		case v == "user":
 			s.user = true
+		case v == "kept-errors":
+			s.kept = true
 		case strings.HasPrefix(v, "name:"):
 			for _, w := range nameWorlds {
 				if "name:"+w.Class == v {
@@ -412,6 +421,18 @@ func (s *sys) Reset() error {
 
 		if s.roBase {
 			under, s.refv = rofs.New(s.base), rofs.New(s.ref)
+		}
+
+		if s.kept {
+			// a base that keeps the error values it returns (kept.go)
+			s.keptBase = newKeptErrs(wBase, func() string { return path.Clean(s.base.CurDir()) })
+			s.keptRef = newKeptErrs("", func() string { return path.Clean(s.ref.CurDir()) })
+
+			fb, fr := failfs.New(s.base), failfs.New(s.ref)
+			_ = fb.SetFailFunc(s.keptBase.fn)
+			_ = fr.SetFailFunc(s.keptRef.fn)
+
+			under, s.refv = fb, keptTwin{fr}
 		}
 
 		s.wr, err = basepathfs.NewWithErr(under, s.spelling)
@@ -889,6 +910,16 @@ func (s *sys) Step(op int) bfs.StepResult {
 		return bfs.StepResult{Key: s.lastKey, Outcome: "no-links-in-this-world"}
 	}
 
+	if s.kept && (o.Dir != "" || o.Call == "Sub") {
+		// the failure function of a FailFS view receives the view's names: views
+		// are not part of the variant kept-errors (kept.go); nothing is executed
+		return bfs.StepResult{Key: s.lastKey, Outcome: "no-links-in-this-world"}
+	}
+
+	if s.kept {
+		s.keptBase.hits = 0
+	}
+
 	// the operands as this world spells them (variants name:<class>)
 	o.A, o.B, o.Dir = spell(o.A), spell(o.B), spell(o.Dir)
 
@@ -982,6 +1013,13 @@ func (s *sys) Step(op int) bfs.StepResult {
 	default:
 		got = run(s.wr, o)
 		want = run(s.refv, o)
+
+		if s.kept && s.keptBase.hits > 0 {
+			// the base answered with an error value it keeps: the same call once
+			// more, which receives the same value
+			got = again(got, run(s.wr, o))
+			want = again(want, run(s.refv, o))
+		}
 	}
 
 	// returned path strings are normalised from the virtual cwd in which the
@@ -1216,6 +1254,17 @@ compare:
 		return s.finish(o, pc, bcc, want, got, viols, diffs, notes, bfs.StepResult{Key: s.lastKey, Rebuild: true})
 	}
 
+	// the error values the base keeps are the base's: unchanged around every call
+	keptModified := false
+
+	if s.kept {
+		if class, why := s.keptBase.modified(); class != "" {
+			keptModified = true
+
+			mk(o.Call, "base-error-modified", "unchanged", class, why)
+		}
+	}
+
 	outsideAfter := s.outsideSnap(baseAfter)
 	outsideChanged := false
 
@@ -1283,7 +1332,7 @@ compare:
 	key := s.key(baseAfter, refAfter)
 	changed := key != s.lastKey
 	mtimeOnly := !changed && (strings.Join(bAfter, "\n") != strings.Join(s.bDump, "\n"))
-	broken := poisoned || outsideChanged || treeDiff != "" || cwdDiverged || refCwdRelative
+	broken := poisoned || outsideChanged || treeDiff != "" || cwdDiverged || refCwdRelative || keptModified
 
 	if baseOp {
 		// the wrapper calls after a BaseChdir show the cwd it presents: a
